@@ -248,6 +248,12 @@ def core_types():
     for i in range(6):
         d = [T("vec", [d]), T("option", [d]), T("box", [d]), T("tuple", [d, U8]), T("array", [d], 2), T("result", [d, STRING])][i]
     out.append(d)
+    # very deep nesting (registration recursion depth 40 and 70; Box is transparent and does not add a level)
+    for depth in (40, 70):
+        d = U16
+        for i in range(depth):
+            d = [T("option", [d]), T("vec", [d]), T("tuple", [d]), T("array", [d], 1), T("option", [T("box", [d])])][i % 5]
+        out.append(d)
     return out
 
 
@@ -364,7 +370,7 @@ def main():
     with open(outdir + "/fp_corpus.rs", "w") as fh:
         fh.write("// @generated by gen/corpus.py seed=%d tier=%s\n" % (seed, tier))
         fh.write("#[allow(unused_imports, dead_code, non_camel_case_types, non_snake_case)]\npub mod g {\n    use super::prelude::*;\n")
-        fh.write(def_src)
+        fh.write(dg.fp_src)
         fh.write("}\n\n")
         base, bv = [], []
         seen = set()
@@ -374,8 +380,8 @@ def main():
                 continue
             seen.add(txt)
             (bv if (t.has_bitvec() or txt in ("Lsb0", "Msb0")) else base).append(txt)
-        for (txt, _sh, _dp, _enc, _tags) in def_entries:
-            base.append(txt)
+        for (txt, _sh, _dp, _enc, tags) in def_entries:
+            (bv if "bitvec_member" in tags else base).append(txt)
         for name, lst, cfg in (("metas", base, ""), ("metas_bitvec", bv, '#[cfg(feature = "bit-vec")]\n')):
             fh.write("%spub fn %s() -> Vec<(&'static str, scale_info::MetaType)> {\n    use prelude::*;\n    vec![\n" % (cfg, name))
             for txt in lst:
